@@ -4,19 +4,52 @@
 From Coq Require Import String ZArith List Bool.
 Import ListNotations.
 From Verif Require Import Base.PyValue Model.Compile Proofs.CompileProofs Model.Link Proofs.LinkProofs.
+From Verif Require Import Model.WF Proofs.WFProofs Model.Locate Proofs.LocateProofs.
 From Verif Require Model.RegistrySnapshot Model.Exec Model.Typing.
 Open Scope string_scope.
 Open Scope list_scope.
 Open Scope nat_scope.
 
-(* FULL STATEMENT (not proved as one theorem):
-     C05_accept_iff_wf : forall s p st, (exists q, compile s p st = Ok q) <-> WF s p st
-   with WF the inductive closure, over the whole statement, of the per-node and per-clause conditions below.
-   Proved here: the per-node typing layer (unary / binary with implicit cast / BETWEEN / functions: accepted iff an
-   overload exists; IN: always), the aggregate rule of one expression, positional references, PIVOT BY, parameters;
-   and for every accepted statement the invariants the later stages rely on.  Missing: the induction over the
-   expression tree that glues the per-node equivalences into one judgement, and the declarative form of the GROUP BY /
-   ORDER BY reconciliation loops (their results are characterised by the invariants only). *)
+(* ---- THE WHOLE-STATEMENT THEOREM.  WF (Model/WF.v) is the declarative judgement "the statement's parameters fit its
+   placeholders, subqueries stand only where they are supported, and over the default table the SELECT denotes a query":
+   one rule per AST constructor whose premises are conditions (sub-expressions denote nodes; an overload exists for the
+   operand types -- C05_accept_iff_wf_unary/_binary/_between/_function below characterise those premises; the aggregate
+   rules; a GROUP BY / ORDER BY reference denotes a target by position | a target by name | the first target whose
+   compiled node is equal | a new hidden target; OPEN <= CLOSE; ...), not an order of checks.
+   Proved by induction over the nested expression tree (WFProofs.expr_ind').
+   WF states what the CODE enforces.  It differs from the property text in exactly two rules, both witnessed below:
+   rule DIn has no premise on the operand types (C05_in_operand_types_refuted) and `covered` demands that the group
+   indexes -- keys reconciled with the FIRST equal target -- equal the set of non-aggregate targets
+   (C05_duplicate_grouped_target_refuted).  Not formalised: a second judgement WF_text with those two rules as the text
+   words them and the conditional equivalences WF_text <-> WF under "no untyped IN" / "no repeated grouped target".
+   BALANCES / JOURNAL / PRINT are outside WF (WF = False there); their cooked SELECTs go through C05_compile_iff_denotes. *)
+Theorem C05_accept_iff_wf : forall sch p e,
+  (exists q, compile sch p (SSelect e) = Ok q) <-> WF sch p (SSelect e).
+Proof. exact compile_select_iff_wf. Qed.
+Print Assumptions C05_accept_iff_wf.
+
+(* the same for every expression and every nested SELECT, with the result: the compiler yields r exactly when the
+   expression denotes r *)
+Theorem C05_compile_iff_denotes : forall sch pv e tbl r,
+  comp sch pv e tbl = Ok r <-> Den sch pv e tbl r.
+Proof. exact comp_iff_den. Qed.
+Print Assumptions C05_compile_iff_denotes.
+
+(* ---- locations (Model/Locate.v): the node a CompilationError is about, as a path in the statement AST.  A location is
+   produced only for rejected statements and always denotes a node of the statement, hence -- the parser gives every
+   node a span of the statement text (checked on every run by the implementation-side oracle) -- lies within that text.
+   The model enforces this with a check ([valid_path]) on the path computed by [locate] / [viol]; that the check never
+   discards a location is not proved but observed: the correspondence compares the span of the named node with the
+   span the implementation attaches for every rejected SELECT. *)
+Theorem C05_location_valid : forall sch p e pth,
+  locate_stmt sch p e = Some (Some pth) -> valid_path e pth = true.
+Proof. exact location_valid. Qed.
+Print Assumptions C05_location_valid.
+
+Theorem C05_location_iff_rejected : forall sch p e,
+  locate_stmt sch p e = None <-> exists q, compile sch p (SSelect e) = Ok q.
+Proof. exact location_iff_rejected. Qed.
+Print Assumptions C05_location_iff_rejected.
 
 (* ---- the model has no third outcome: a statement is accepted, or rejected with an error whose Python class is
    ProgrammingError / CompilationError(ProgrammingError); the only other class is the TypeError for a parameter
@@ -121,6 +154,16 @@ Proof.
   split; [eexists; vm_compute; reflexivity | vm_compute; reflexivity].
 Qed.
 Print Assumptions C05_in_operand_types_refuted.
+
+(* the same witness against the judgement: it is well-formed although no overload of In takes (int, int) *)
+Theorem C05_wf_in_rule_untyped :
+  exists e, WF snapshot_schema PNone (SSelect e)
+            /\ function_lookup RegistrySnapshot.operators "In" ["int"; "int"] = None.
+Proof.
+  exists (ESelect (Some [(EBinary "In" (lit 1) (lit 2), None, "1 IN 2")]) FKNone None None None [] None None false).
+  split; [apply compile_select_iff_wf; eexists; vm_compute; reflexivity | vm_compute; reflexivity].
+Qed.
+Print Assumptions C05_wf_in_rule_untyped.
 
 (* "every non-aggregate target covered by GROUP BY": a target repeated in the SELECT list is rejected although it is
    a GROUP BY key (the key is reconciled with the first equal target only) *)
